@@ -127,6 +127,27 @@ def run_case(case):
                 if a != j or b != int(exp[o]):
                     return dict(status="violation", kind="index",
                                 detail=f"{where}: index_fn [{label}]({ref[j].tolist()}) = {a} (row {j}); ({infl[o].tolist()}) = {b} (nearest row {int(exp[o])})")
+        if k % 5 == 0 and np.abs(mins).max() < 10 ** 8 and np.abs(maxs).max() < 10 ** 8:
+            # vectors FAR outside the box in one coordinate (up to +-2e9 away, still int32): nearest row in that coordinate
+            far = []
+            for j in range(d):
+                for off in (10 ** 6, -10 ** 6, 10 ** 9 + 2, -(10 ** 9) - 2, 2 * 10 ** 9, -2 * 10 ** 9, 536870913, -1073741825):
+                    v = ref[len(ref) // 2].copy()
+                    v[j] = int(mins[j]) + off
+                    if -2 ** 31 < v[j] < 2 ** 31 and abs(int(v[j]) - int(mins[j])) < 2 ** 31:
+                        far.append(v)
+            far = np.array(far, dtype=np.int64).reshape(-1, d)
+            fexp = np.ravel_multi_index(tuple((np.clip(far, mins, maxs) - mins).T), tuple(int(x) for x in dims))
+            try:
+                fgot = np.asarray(jax.vmap(index_fn)(jnp.asarray(far, dtype=jnp.int32)))
+            except Exception as e:  # noqa: BLE001
+                return dict(status="violation", kind="target-exception", detail=f"{where}: index_fn on far-outside vectors raised {type(e).__name__}: {str(e)[:150]}")
+            if not np.array_equal(fgot, fexp):
+                i = int(np.argmax(fgot != fexp))
+                return dict(status="violation", kind="outside",
+                            detail=f"{where}: index_fn({far[i].tolist()}) = {int(fgot[i])}, nearest box point "
+                                   f"{np.clip(far[i], mins, maxs).tolist()} is row {int(fexp[i])}")
+            n_vec += len(far)
         if k % 5 == 0:
             # vectors held in narrower / unsigned integer dtypes (a state kept as int8, uint8, int16, uint16): every
             # vector of the inflated box that the dtype can represent, through vmap
